@@ -847,8 +847,12 @@ class Interp:
         if deep_concrete(args) and deep_concrete(kwargs) and cls.__module__ in ("builtins", "collections", "datetime"):
             return self.native(cls, args, kwargs)
         mk = self.summaries.get("<option>ghost_dicts")
-        if mk is not None and isinstance(cls, type) and issubclass(cls, dict) and cls is not dict and not args:
+        if mk is not None and isinstance(cls, type) and issubclass(cls, dict) and cls is not dict and len(args) <= 1:
             g = mk(cls.__name__)
+            if g is not None and args:
+                from . import gsets
+
+                g = gsets.dict_from_pairs(self, g, args[0])
             if g is not None:
                 # dict.__init__(**kwargs) stores the keys as given (it does not go through an overridden __setitem__)
                 for kk, vv in kwargs.items():
